@@ -32,14 +32,39 @@ def install(root, crash, sig_maps):
     """sig_maps() -> (task signature -> id, node signature -> id), filled lazily from the session."""
     STATE.update(n=0, k=None if not crash else crash.get("after"), root=str(root))
     import _pytask.database_utils as DU
-    orig = DU._create_or_update_state
+    orig = getattr(DU, "_create_or_update_state", None)
+    if orig is not None:
+        def wrapped(first_key, second_key, hash_):
+            before_effect()
+            orig(first_key, second_key, hash_)
+            _emit(f"C {first_key} {second_key}")
 
-    def wrapped(first_key, second_key, hash_):
-        before_effect()
-        orig(first_key, second_key, hash_)
-        _emit(f"C {first_key} {second_key}")
+        DU._create_or_update_state = wrapped
+        return
+    # the function was renamed or inlined: observe committed State rows through SQLAlchemy events
+    # (rows whose hash did not change are not seen this way; builds are still observed)
+    try:
+        from sqlalchemy import event
+        pending = []
 
-    DU._create_or_update_state = wrapped
+        def after_flush(session, ctx):
+            for obj in list(session.new) + list(session.dirty):
+                if hasattr(obj, "task") and hasattr(obj, "node"):
+                    pending.append((obj.task, obj.node))
+
+        def before_commit(session):
+            before_effect()
+
+        def after_commit(session):
+            rows, pending[:] = list(pending), []
+            for t, n in rows:
+                _emit(f"C {t} {n}")
+
+        event.listen(DU.DatabaseSession, "after_flush", after_flush)
+        event.listen(DU.DatabaseSession, "before_commit", before_commit)
+        event.listen(DU.DatabaseSession, "after_commit", after_commit)
+    except Exception:  # noqa: BLE001
+        pass
 
 
 class Reporter:
